@@ -114,6 +114,9 @@ func vfC20Versions(useBcrypt bool) []*vfC20Version {
 
 func vfC20(w *vfWorld) {
 	t := w.tape
+	vfY.mu.Lock()
+	vfY.spins = nil // (unscheduled lock waits are counted per run)
+	vfY.mu.Unlock()
 	if vfC20AAvailable() && (w.variant == "modeA" && t.Weighted("c20.mode", 3, 1) == 0) {
 		vfC20A(w)
 		return
